@@ -413,7 +413,7 @@ def run(ctx):
             okq = len(lp) == 1
             if okq:
                 # the source list is walked from its back, and what is appended is the current element (moved)
-                wk_ = loop_walk(f, lp[0])
+                wk_ = loop_walk_any(f, lp[0])
                 okq = wk_ is not None and wk_["dir"] == "backward"
                 if okq:
                     Xq = Expander(P, f)
@@ -495,11 +495,23 @@ def run(ctx):
     # pastPrekillHookTimeout uses the deadline fixed at chain fire and the steady clock
     ppt = ctx.fn1("Oomd::BaseKillPlugin::pastPrekillHookTimeout")
     X = Expander(P, ppt)
-    for r in returns(ppt):
-        t = X(ppt.nodes[r]["val"])
-        D_ = r"\*?param:ctx\.getActionContext\(\)\.prekill_hook_timeout_ts(?:\.value\(\))?"
-        NOW_ = r"std::chrono::steady_clock::now\(\)"
+    fpt = Flow(P, ppt, cg=ctx.cg)
+    D_ = r"\*?param:ctx\.getActionContext\(\)\.prekill_hook_timeout_ts(?:\.value\(\))?"
+    NOW_ = r"std::chrono::steady_clock::now\(\)"
+    n_cmp = 0
+    for r, leaf in return_leaves(ppt):
+        t = X(leaf)
         past = re.search(r"\(%s > %s\)" % (NOW_, D_), t) is not None or re.search(r"\(%s < %s\)" % (D_, NOW_), t) is not None
+        if t == "false":
+            # 'no deadline configured' answered before the comparison (guard-clause spelling of `has_value() && now > deadline`)
+            g = expanded_guards(P, ppt, fpt, leaf, X)
+            absent = any(isinstance(k, str) and re.search(r"prekill_hook_timeout_ts(\.has_value\(\))?$", k) and p is False for k, p in g)
+            ctx.check(absent, "timeout-from-action-context", "value-shape", ppt.loc(r),
+                      "'not past' is answered without the clock only when no deadline is set", "pastPrekillHookTimeout returns false under " + str(sorted(g, key=str))[:160])
+            continue
+        n_cmp += 1
         ctx.check("param:ctx.getActionContext().prekill_hook_timeout_ts" in t and past,
                   "timeout-from-action-context", "value-shape", ppt.loc(r),
                   "window end is the action context's deadline, compared on the steady clock", "timeout test is " + t[:120])
+    if not n_cmp:
+        ctx.violation("timeout-from-action-context", "value-shape", ppt.loc(), "pastPrekillHookTimeout never compares the clock with the deadline")
